@@ -160,6 +160,32 @@ fn check_ahash(rng: &mut Rng, rounds: usize) {
     }
 }
 
+fn check_ahashset(rng: &mut Rng, rounds: usize) {
+    // set contract only (membership, sizes, the SET of iterated elements): iteration ORDER is
+    // unspecified for a hash set and deliberately nondeterministic in the model
+    for _ in 0..rounds {
+        let mut m = ahash_model::AHashSet::<u32>::new();
+        let mut r = ahash_real::AHashSet::<u32>::new();
+        for _ in 0..40 {
+            let k = rng.below(12) as u32;
+            match rng.below(3) {
+                0 | 1 => assert_eq!(m.insert(k), r.insert(k), "AHashSet::insert"),
+                _ => assert_eq!(m.remove(&k), r.remove(&k), "AHashSet::remove"),
+            }
+            assert_eq!(m.contains(&k), r.contains(&k));
+            assert_eq!(m.len(), r.len());
+        }
+        let mut a: Vec<u32> = m.iter().cloned().collect();
+        let mut b: Vec<u32> = r.iter().cloned().collect();
+        a.sort();
+        b.sort();
+        assert_eq!(a, b, "AHashSet iteration (as a set)");
+        let mut a: Vec<u32> = m.into_iter().collect();
+        a.sort();
+        assert_eq!(a, b, "AHashSet into_iter (as a set)");
+    }
+}
+
 fn check_segqueue(rng: &mut Rng, rounds: usize) {
     for _ in 0..rounds {
         let (m, r) = (segq_model::SegQueue::<u64>::new(), segq_real::SegQueue::<u64>::new());
@@ -191,5 +217,6 @@ fn main() {
     check_shrev(&mut rng, rounds);
     check_ahash(&mut rng, rounds);
     check_segqueue(&mut rng, rounds);
+    check_ahashset(&mut rng, rounds);
     println!("modelcheck: hibitset-bounded, shrev-vec, ahash-assoc, crossbeam-queue-seq agree with the real crates on {} rounds (seed {})", rounds, seed);
 }
